@@ -1,4 +1,4 @@
-import SqlObjVerif.Model.Graph
+import SqlObjVerif.Model.GraphTrav
 import SqlObjVerif.Model.DrvUtil
 /-! Driver for C12.  One case per line, tokens:
     `K` new class · `F <target> <c|r|n|k>` foreign key of the last class · `J <other> <table> <0|1>` related join
@@ -77,7 +77,7 @@ def handle (line : String) : String :=
   | (st, some (c, i, f)) =>
     if st.bad then "bad-op" else
     let db : DB := ⟨st.rows, st.links, st.cache⟩
-    let flags := " | -"
+    let flags := " | " ++ (match trav st.S db f [] c i with | .ok _ => "ok" | .refused => "refused" | .fuel => "fuel")
     match destroy st.S f db c i with
     | .ok db' => "ok | " ++ showDB db db' ++ flags
     | .refused db' => "refused | " ++ showDB db db' ++ flags
